@@ -215,6 +215,55 @@ fn cmd_log(req: &Value) -> Value {
     json!({"plain": plain, "logged": logged, "after": after, "log_entries": log.map(|l| serde_json::to_value(&l).ok().and_then(|v| v.get("entries").and_then(|e| e.as_array().map(|a| a.len()))).unwrap_or(0))})
 }
 
+
+// {src, compiles, restarts}: one thread compiles repeatedly while another restarts the debug log
+// (log_finish; log_start) -- the only way left to disturb LogSuppressLock's bookkeeping
+fn cmd_lograce(req: &Value) -> Value {
+    let compiles = req.get("compiles").and_then(|v| v.as_u64()).unwrap_or(50) as usize;
+    let restarts = req.get("restarts").and_then(|v| v.as_u64()).unwrap_or(2000) as usize;
+    let _ = guarded(|| {
+        let _ = prqlc::debug::log_finish();
+        json!(null)
+    });
+    let before = outputs(req);
+    prqlc::debug::log_start();
+    let r = req.clone();
+    let a = std::thread::spawn(move || {
+        let mut panics: Vec<String> = vec![];
+        for _ in 0..compiles {
+            let o = outputs(&r);
+            if let Some(m) = o.get("sql").and_then(|s| s.get("panic")).and_then(|p| p.get("msg")).and_then(|m| m.as_str()) {
+                if !panics.iter().any(|x| x == m) {
+                    panics.push(m.to_string());
+                }
+            }
+        }
+        panics
+    });
+    let b = std::thread::spawn(move || {
+        let mut api_panics = 0usize;
+        for _ in 0..restarts {
+            let r = std::panic::catch_unwind(|| {
+                let _ = prqlc::debug::log_finish();
+                prqlc::debug::log_start();
+            });
+            if r.is_err() {
+                api_panics += 1;
+            }
+            std::thread::yield_now();
+        }
+        api_panics
+    });
+    let panics = a.join().unwrap_or_default();
+    let api_panics = b.join().unwrap_or(0);
+    let _ = guarded(|| {
+        let _ = prqlc::debug::log_finish();
+        json!(null)
+    });
+    let after = outputs(req);
+    json!({"before": before, "after": after, "panics_during": panics, "api_panics": api_panics})
+}
+
 pub fn dispatch(cmd: &str, req: &Value) -> Option<Value> {
     match cmd {
         "c11_out" => Some(outputs(req)),
@@ -223,6 +272,7 @@ pub fn dispatch(cmd: &str, req: &Value) -> Option<Value> {
         "c11_par" => Some(cmd_par(req)),
         "c11_tree" => Some(cmd_tree(req)),
         "c11_log" => Some(cmd_log(req)),
+        "c11_lograce" => Some(cmd_lograce(req)),
         _ => None,
     }
 }
